@@ -6,6 +6,8 @@ property-level spec.
 -/
 import Ufw.Model.ByteBuffer
 import Ufw.Spec.ByteBuffer
+import Ufw.Model.Ring
+import Ufw.Spec.Queue
 import Driver.Loop
 
 open Ufw
@@ -17,6 +19,8 @@ open Ufw.Spec.ByteBuffer (Fifo)
 structure State where
   bb   : ByteBuffer := byte_buffer_null
   fifo : Fifo := ⟨0, [], 0⟩
+  ring : Ufw.Model.Ring.Ring := Ufw.Model.Ring.init 1
+  q    : Ufw.Spec.Queue.Q := ⟨1, [], false⟩
 
 def rcStr : Rc → String
   | .ok n => s!"ok:{n}"
@@ -36,6 +40,28 @@ def bbOp (s : State) (op : Op) (full := false) : State × String :=
   -- a null buffer is outside the property's domain (set-up refuses it): no independent spec view
   if s.bb.null then ({ s with bb := b' }, bbView o.rc b' o.out full ++ " ## " ++ fifoView o.rc s.fifo o.out) else
   ({ s with bb := b', fifo := f' }, bbView o.rc b' o.out full ++ " ## " ++ fifoView so.rc f' so.out)
+
+/-! ring buffer: after every operation print the value returned, size/empty/full and both
+    iterator sequences – computed from the model on the left, from the queue spec on the right -/
+
+def natList (l : List Nat) : String :=
+  if l.isEmpty then "-" else ",".intercalate (l.map toString)
+
+def ringView (ret : String) (c : Ufw.Model.Ring.Ring) : String :=
+  let o2n := match Ufw.Model.Ring.iterate c .oldToNew with | some l => natList l | none => "oob"
+  let n2o := match Ufw.Model.Ring.iterate c .newToOld with | some l => natList l | none => "oob"
+  s!"{ret} size={Ufw.Model.Ring.size c} empty={Ufw.Model.Ring.empty c} full={Ufw.Model.Ring.full c} o2n={o2n} n2o={n2o}"
+
+def queueView (ret : String) (q : Ufw.Spec.Queue.Q) : String :=
+  s!"{ret} size={q.items.length} empty={q.items.isEmpty} full={decide (q.items.length = q.cap)} o2n={natList q.items} n2o={natList q.items.reverse}"
+
+def outStr : Ufw.Model.Ring.Out → String
+  | .unit => "ok" | .val x => s!"val:{x}" | .oob => "oob"
+
+def ringOp (s : State) (op : Ufw.Model.Ring.Op) : State × String :=
+  let (c', o) := Ufw.Model.Ring.step s.ring op
+  let (q', so) := Ufw.Spec.Queue.step s.q op
+  ({ s with ring := c', q := q' }, ringView (outStr o) c' ++ " ## " ++ queueView (outStr so) q')
 
 def stepLine (s : State) (toks : List String) : State × String :=
   match toks with
@@ -62,6 +88,17 @@ def stepLine (s : State) (toks : List String) : State × String :=
   | ["bb.clear"] => bbOp s .clear true
   | ["bb.reset"] => bbOp s .reset
   | ["bb.repeat"] => bbOp s .repeat_
+  | ["rb.init", _ty, cap] =>
+    match cap.toNat? with
+    | some cap =>
+      let c := Ufw.Model.Ring.init cap
+      let q : Ufw.Spec.Queue.Q := ⟨cap, [], false⟩
+      ({ s with ring := c, q := q }, ringView "ok" c ++ " ## " ++ queueView "ok" q)
+    | none => (s, "bad-op")
+  | ["rb.put", x] => match x.toNat? with | some x => ringOp s (.put x) | none => (s, "bad-op")
+  | ["rb.get"] => ringOp s .get
+  | ["rb.clear"] => ringOp s .clear
+  | ["rb.ovr", b] => ringOp s (.override (b == "1"))
   | _ => (s, "bad-op")
 
 end Driver.Buffers
